@@ -15,6 +15,7 @@ import SkNet.Lemmas.Split
 import SkNet.Lemmas.SplitAgree
 import SkNet.Lemmas.MergeW
 import SkNet.Lemmas.ParisMono
+import SkNet.Lemmas.Reducible
 
 namespace SkNet.C07
 open SkNet SkNet.Dendro SkNet.Hier
@@ -558,5 +559,35 @@ example : (match Paris.fit (α := ℚ) id 400
     | _ => false) = true := by decide +kernel
 
 end parisComplete
+
+/-! ### The linkage is reducible -/
+
+section reducibleLinkage
+open SkNet.Agg SkNet.Paris
+
+/-- **Paris' linkage is reducible** (`reducible`): in exact arithmetic, after `AggregateGraph.merge(n1, n2)` the
+    similarity of the new node to any other node `c` is defined and lies between the similarities of `n1` and `n2`
+    to `c` (mediant inequality: numerators and denominators add) — in particular
+    `sim(n1 ∪ n2, c) ≤ max (sim(n1, c)) (sim(n2, c))`, so in exact arithmetic a merge of reciprocal nearest
+    neighbours is never higher than a later merge that contains it. (In floating point this can fail by an ulp —
+    F19 — which is why the repaired code clamps the height; validity, `paris_valid`, does not depend on this.) -/
+theorem reducible {g : AggGraph ℚ} {n1 n2 c : Nat} (hI : NbInv g.nb g.next) (h12 : n1 ≠ n2)
+    (h1 : n1 < g.next) (h2 : n2 < g.next) (hc : c < g.next) (hc1 : c ≠ n1) (hc2 : c ≠ n2)
+    (ho1 : 0 < wOf g.outW n1) (ho2 : 0 < wOf g.outW n2) (hoc : 0 < wOf g.outW c)
+    (hi1 : 0 < wOf g.inW n1) (hi2 : 0 < wOf g.inW n2) (hic : 0 < wOf g.inW c) :
+    ∃ s s1 s2, similarity id (g.merge n1 n2) g.next c = some s ∧ similarity id g n1 c = some s1 ∧
+      similarity id g n2 c = some s2 ∧ min s1 s2 ≤ s ∧ s ≤ max s1 s2 :=
+  similarity_merge hI h12 h1 h2 hc hc1 hc2 ho1 ho2 hoc hi1 hi2 hic
+
+/-- non-vacuity: a weighted triangle; merging 0 and 1 gives similarity 1/8 to node 2, between 1/12 and 3/20 -/
+example :
+    let g : AggGraph ℚ := { next := 3, nb := [(0, [(1, 2), (2, 1)]), (1, [(0, 2), (2, 3)]), (2, [(0, 1), (1, 3)])],
+                            sizes := [(0, 1), (1, 1), (2, 1)], outW := [(0, 3), (1, 5), (2, 4)],
+                            inW := [(0, 3), (1, 5), (2, 4)] }
+    similarity id (g.merge 0 1) 3 2 = some (1 / 8) ∧ similarity id g 0 2 = some (1 / 12) ∧
+      similarity id g 1 2 = some (3 / 20) := by
+  decide +kernel
+
+end reducibleLinkage
 
 end SkNet.C07
